@@ -214,6 +214,9 @@ def mixed_types(ctx, root):
             ('globmatch REALPATH (bytes name and pattern, str root)', lambda: G.globmatch(b'a', bp, flags=gf | G.REALPATH, root_dir=root)),
             ('globmatch REALPATH (str name and pattern, bytes root)', lambda: G.globmatch('a', p, flags=gf | G.REALPATH, root_dir=broot)),
             ('globfilter REALPATH (str names, bytes pattern and root)', lambda: G.globfilter(['a', 'd'], bp, flags=gf | G.REALPATH, root_dir=broot)),
+            ('globmatch REALPATH (bytes name and pattern, empty str root)', lambda: G.globmatch(b'a', bp, flags=gf | G.REALPATH, root_dir='')),
+            ('globmatch REALPATH (str name and pattern, empty bytes root)', lambda: G.globmatch('a', p, flags=gf | G.REALPATH, root_dir=b'')),
+            ('globfilter REALPATH (bytes, empty str root)', lambda: G.globfilter([b'a'], bp, flags=gf | G.REALPATH, root_dir='')),
             ('glob(bytes pattern, str root)', lambda: G.glob(bp, flags=gf, root_dir=root)),
             ('glob(str pattern, bytes root)', lambda: G.glob(p, flags=gf, root_dir=broot)),
             ('iglob(bytes pattern, str root)', lambda: list(G.iglob(bp, flags=gf, root_dir=root))),
